@@ -61,9 +61,17 @@ Fixpoint lookup_attr (k : str) (l : list (str * str)) : option str :=
   match l with [] => None | (a, b) :: r => if str_eqb a k then Some b else lookup_attr k r end.
 (* dict(elem.attrib): a repeated key cannot occur in well-formed XML *)
 Definition NODE_REF_ATTRS : list str := map lit ["DataType"; "ParentNodeId"; "MethodDeclarationId"]%string.
-Definition INT8_ATTRS : list str := map lit ["ValueRank"; "AccessLevel"; "EventNotifier"]%string.
+(* the integer columns and the pandas dtype each is cast to (get_attrib_df): the widths of the schema's types, except
+   MinimumSamplingInterval (a Duration in the schema, Int32 in the table) *)
 Definition wrap_int (bits : Z) (z : Z) : Z :=
   let m := (2 ^ bits)%Z in let r := (z mod m)%Z in if (r <? m / 2)%Z then r else (r - m)%Z.
+Definition wrap_uint (bits : Z) (z : Z) : Z := (z mod 2 ^ bits)%Z.
+Definition int_attr_cast (k : str) : option (Z -> Z) :=
+  if str_eqb k (lit "ValueRank") then Some (wrap_int 32)
+  else if str_eqb k (lit "AccessLevel") then Some (wrap_uint 32)
+  else if str_eqb k (lit "EventNotifier") then Some (wrap_uint 8)
+  else if str_eqb k (lit "MinimumSamplingInterval") then Some (wrap_int 32)
+  else None.
 
 Definition parse_id (s : str) (nsmap : list (Z * Z)) (amap : list (str * nodeid)) : res nodeid := parse_nodeid s nsmap amap.
 
@@ -110,10 +118,12 @@ Definition split_browsename (bn : str) (nsmap : list (Z * Z)) : res (str * optio
 (* typing of one attribute value, given the columns this FILE has *)
 Definition cast_attr (k v : str) (nsmap : list (Z * Z)) (amap : list (str * nodeid)) : res aval :=
   if mem_str k NODE_REF_ATTRS then rmap ANode (parse_id v nsmap amap)
-  else if mem_str k INT8_ATTRS then match py_int v with Some z => Ok (AInt (wrap_int 8 z)) | None => Err EValue end
-  else if str_eqb k (lit "MinimumSamplingInterval") then match py_int v with Some z => Ok (AInt (wrap_int 32 z)) | None => Err EValue end
-  else if str_eqb k (lit "IsAbstract") || str_eqb k (lit "Symmetric") then Ok (ABool (negb (str_eqb v (lit "false") || str_eqb v [])))
-  else Ok (AStr v).
+  else match int_attr_cast k with
+  | Some f => match py_int v with Some z => Ok (AInt (f z)) | None => Err EValue end
+  | None =>
+  if str_eqb k (lit "IsAbstract") || str_eqb k (lit "Symmetric") then Ok (ABool (negb (str_eqb v (lit "false") || str_eqb v [])))
+  else Ok (AStr v)
+  end.
 Definition BOOL_COLS : list str := map lit ["IsAbstract"; "Symmetric"]%string.
 
 Definition has_attr (k : str) (a : list (str * str)) : bool := match lookup_attr k a with Some _ => true | None => false end.
